@@ -22,8 +22,9 @@ from harness.enum import ListChooser, explore
 from harness.streams import settle
 
 ALPHA_FULL = ["Alive", "DataUs", "DataOther", "Ack", "AckWrongData", "AckWrongPair", "Err40", "ShortAck", "ShortData",
-              "DataOtherDst", "AckOtherPair", "AckFull", "Klemme15", "ErrFF", "Err43", "AliveWithPayload"]
-ALPHA_QUICK = ["Alive", "DataUs", "DataOther", "Ack", "AckWrongData", "Err40", "ShortAck"]
+              "DataOtherDst", "AckOtherPair", "AckFull", "Klemme15", "ErrFF", "Err43", "AliveWithPayload", "AckPrefix",
+              "AckEmpty"]
+ALPHA_QUICK = ["Alive", "DataUs", "DataOther", "Ack", "AckWrongData", "Err40", "ShortAck", "AckPrefix"]
 
 PROGRAMS = {
     "WRR": [("write", 5.0, b"\x22\xf1\x90"), ("read", 1.0, b""), ("read", 1.0, b"")],
